@@ -28,7 +28,7 @@ PLAN = {
         assumptions=["reference matcher encodes the documented rules", "request paths have no empty segments; Host values are well formed"],
         quick=[REPLAY,
                R("exhaustive", "^TestExhaustive$", env={"C01_EXH_SEGS": 2, "C01_EXH_SUBSET": 2, "C01_EXH_PATHLEN": 6}, timeout=900),
-               R("random", "^(TestRandom|TestFanOut)$", checks=15000, timeout=900)],
+               R("random", "^(TestRandom|TestFanOut)$", checks=20000, shards=3, timeout=900)],
         thorough=[REPLAY,
                   R("exhaustive", "^TestExhaustive$", shards=16, env={"C01_EXH_SEGS": 2, "C01_EXH_SUBSET": 3, "C01_EXH_PATHLEN": 7}, timeout=3000),
                   R("random", "^(TestRandom|TestFanOut)$", checks=150000, shards=16, timeout=3000)],
@@ -105,8 +105,8 @@ PLAN = {
              "with a surviving key of the same method (a node merge), or a permutation case; distinct by options+history+order or options+set",
         assumptions=["both routers are given identical options per surviving route"],
         quick=[REPLAY,
-               R("histories", "^TestTwoHistories$", checks=8000, timeout=900),
-               R("permutations", "^TestPermutations$", checks=1500, timeout=900)],
+               R("histories", "^TestTwoHistories$", checks=10000, shards=3, timeout=900),
+               R("permutations", "^TestPermutations$", checks=2500, shards=2, timeout=900)],
         thorough=[REPLAY,
                   R("histories", "^TestTwoHistories$", checks=30000, shards=16, timeout=3000),
                   R("permutations", "^TestPermutations$", checks=10000, shards=16, timeout=3000)],
